@@ -1,16 +1,18 @@
-"""C15 (partial) — the echoed form of an input means the same as the input: string literals."""
+"""C15 (partial) — the echoed form of an input means the same as the input: string literals and expression statements."""
 LEVEL = 'model_checking'
 LIMITS = {'max_unsupported': 0, 'max_undecided_frac': 0.01}
-OUTSIDE = ['everything in the property except string literals: statements, decorators (the `@name("Foo bar")` echo defect named in the property text is a single concrete input and NOT found here), signatures, operator parenthesisation — program structure has no symbolic value to range over',
+OUTSIDE = ['definitions (let / fn / unit / dimension / struct), decorators (the `@name("Foo bar")` echo defect named in the property text is a single concrete input and NOT found here), signatures, where-clauses, interpolated strings, temperature sugar',
+           'expression statements longer than the exhaustive bound that do not match one of the templates; operands other than the scalar variable x = 3 and the literal 2 (units with prefixes, function calls: x is not callable, so call syntax is rejected by the checker)',
            'strings longer than the bound; non-ASCII characters (they are copied through unchanged by both directions); strings with interpolations']
 ASSUMPTIONS = ['characters are symbolic over the 14-character alphabet  " \\ { } n r t 0 a space LF CR TAB NUL  — every character that escape_numbat_string or the parser\'s unescaping distinguishes, the letters used in escapes, and ordinary characters']
 
 ALPHA = [34, 92, 123, 125, 110, 114, 116, 48, 97, 32, 10, 13, 9, 0]
 
 def bounds(tier):
-    return {'strings': 'every string of 0..%d characters over the 14-character alphabet' % (3 if tier == 'quick' else 5)}
+    return {'expressions': 'every token sequence of 1..%d tokens over the 37-kind expression alphabet of C10 that the real parser and checker accept (first token fixed per case, the rest symbolic), plus the operator templates of C10 (x o x o x, - x o x o x, x o x o x !, ( x o x ) o x …) with the operator positions symbolic over the 23 operators' % (3 if tier == 'quick' else 4),
+            'strings': 'every string of 0..%d characters over the 14-character alphabet' % (3 if tier == 'quick' else 5)}
 
-def exhaustive(tier): return True
+def exhaustive(tier): return False
 
 def _inputs(rnd, case):
     c = {'u%d' % i: rnd.choice(ALPHA) for i in range(6)}
@@ -23,7 +25,34 @@ def plan(tier, rnd, units):
     for k in range(3, n + 1):
         for a in ALPHA:
             cases.append({'id': 'len%d-first%d' % (k, a), 'label': 'strings of %d characters starting with code %d' % (k, a), 'cfg': {0: str(k), 1: str(a)}})
-    return [{'entry': 'h_c15_string', 'cases': cases, 'opts': {'mode': 'replay', 'max_paths': 1000000, 'instr_budget': 50_000_000},
+    return [expr_job(tier), {'entry': 'h_c15_string', 'cases': cases, 'opts': {'mode': 'replay', 'max_paths': 1000000, 'instr_budget': 50_000_000},
              'expect_covers': ['c15-escaped', 'c15-read-back'], 'selftest_inputs': _inputs}]
+
+def expr_job(tier):
+    from . import c10
+    K = c10.K; x = str(c10.ID); n2 = str(c10.NUM)
+    n = 3 if tier == 'quick' else 4
+    cases = []
+    for L in range(1, n + 1):
+        for first in range(K):
+            if L >= 4:
+                for second in range(K):
+                    cases.append({'id': 'e-len%d-first%d-%d' % (L, first, second), 'label': 'all accepted expressions of %d tokens starting with kinds %d %d' % (L, first, second), 'cfg': {0: ' '.join([str(first), str(second)] + ['s'] * (L - 2))}})
+                continue
+            cases.append({'id': 'e-len%d-first%d' % (L, first), 'label': 'all accepted expressions of %d tokens starting with kind %d' % (L, first), 'cfg': {0: ' '.join([str(first)] + ['s'] * (L - 1))}})
+    LP, RP, MINUS, BANG, UEXP = str(c10.LP), str(c10.RP), str(c10.MINUS), str(c10.BANG), str(c10.UEXP)
+    T = [[x, 'o', n2, 'o', x], [MINUS, x, 'o', n2, 'o', x], [x, 'o', MINUS, n2, 'o', x], [x, 'o', n2, 'o', x, BANG], [x, 'o', x, BANG, 'o', n2],
+         [LP, x, 'o', n2, RP, 'o', x], [x, 'o', LP, n2, 'o', x, RP], [LP, x, 'o', n2, RP, BANG], [LP, x, 'o', n2, RP, UEXP], [MINUS, LP, x, 'o', n2, RP, 'o', x],
+         [x, 'o', x, UEXP, 'o', n2], [LP, MINUS, x, RP, 'o', n2, 'o', x], [x, 'o', n2, x, 'o', x]]
+    if tier == 'thorough':
+        T += [[x, 'o', n2, 'o', x, 'o', n2], [LP, x, 'o', n2, RP, 'o', LP, n2, 'o', x, RP], [LP, x, 'o', n2, 'o', x, RP, 'o', n2], [x, 'o', LP, n2, 'o', x, 'o', n2, RP]]
+    OPK = [4, 5, 6, 7, 8, 9, 10, 11, 12, 13, 14, 15, 16, 17, 18, 19, 20, 21, 22, 23, 24, 25, 27]
+    for i, t in enumerate(T):
+        j = t.index('o')
+        for opk in OPK:
+            tt = list(t); tt[j] = str(opk)
+            cases.append({'id': 'e-tmpl%d-op%d' % (i, opk), 'label': 'template %s' % ' '.join(tt), 'cfg': {0: ' '.join(tt)}})
+    return {'entry': 'h_c15_expr', 'cases': cases, 'opts': {'mode': 'replay', 'max_paths': 200000, 'instr_budget': 400_000_000},
+            'expect_covers': ['c15-expr-outside-grammar', 'c15-expr-accepted', 'c15-expr-echo-accepted'], 'selftest_inputs': c10._inputs}
 
 def classify(v, case): return None
